@@ -253,7 +253,7 @@ def miner_stage(ctx, sim, rnd):
     progs = [v["h"] for v in g.printed if isinstance(v, dict) and v.get("kind") == "B"]
     rnd.shuffle(progs)
     progs = progs[:60 if quick else 1500]
-    behs = [miner_scenario()] + [add_evidences(to_pool_program(s, rnd), rnd) for s in C07.scenarios()[:2]] \
+    behs = [miner_scenario(), C07.scenarios()[4]] + [add_evidences(to_pool_program(s, rnd), rnd) for s in C07.scenarios()[:2]] \
         + [to_pool_program(h, rnd) for h in sim] + progs
     ctx.note("miner stage: %d pool programs (%d from the miner model, %d from generated histories)" % (len(behs), len(progs), len(sim)))
     build_miner(ctx)
@@ -274,7 +274,7 @@ def run(ctx):
     ctx.assumptions += ["protocol version 5 from genesis, scaled parameter table (stake unit 10 LU, period 4 or 2, look-back 4), solo engine",
                         "builder = the miner's sequence of exported calls on chain A; validator = BlockChain.InsertChain on an "
                         "independent chain B, one block at a time",
-                        "determinism: every block is executed K+1 = 4 times with StateProcessor.Process on fresh StateDBs (chain "
+                        "determinism: every block is executed K+1 = 4 times (9 when its receipts carry a penalty log) with StateProcessor.Process on fresh StateDBs (chain "
                         "cache, fresh trie cache, shuffled warm-up, chain B) while the chain head is the parent, and once more "
                         "in a second process",
                         "double-sign evidences are handed to the builder's staking module synchronously (verif hook), signed "
@@ -314,7 +314,9 @@ def run(ctx):
                       depth=8 * full["MaxBlocks"] + 20, extra=["-aril", "3"])
     sim = [add_evidences(v["h"], rnd) for v in g2.printed if isinstance(v, dict) and v.get("kind") == "B"]
     wit = load_witnesses()
-    scen = [add_evidences(s, rnd) for s in C07.scenarios()] + C07.scenarios()[:1]
+    # with seeded evidences, and as they are: the scenario whose validator with five delegators is penalised for
+    # inactivity (4) and the handler-check scenario (5) must not be disturbed by an earlier expulsion
+    scen = [add_evidences(s, rnd) for s in C07.scenarios()] + [C07.scenarios()[i] for i in (0, 4, 5)]
     ctx.note("programs: %d witnesses, %d scenarios, %d design cex, %d bounded programs, %d simulated histories" % (
         len(wit), len(scen), len(expect), len(small) - len(expect), len(sim)))
     for b in (small[0], sim[0] if sim else None):
